@@ -246,7 +246,10 @@ def evaluate(table, spec, cls, container, on_node, n=None):
     EvalError carrying the node."""
     t = spec[0]
     if t in ("leaf", "dleaf"):
-        obj = build_leaf(spec, cls, container, None if cls == "scalar" else n)
+        try:
+            obj = build_leaf(spec, cls, container, None if cls == "scalar" else n)
+        except Exception as e:  # a leaf is a valid request by construction: barril refusing it is a finding of the caller
+            raise EvalError(spec, e)
         m = model_leaf(table, spec, n)
         r = on_node(spec, obj, m, ())
         return obj, (r or m)
